@@ -492,6 +492,41 @@ def _rename(n, suf, ret_target, in_closure=False):
         if isinstance(v, (dict, list)):
             _rename(v, suf, ret_target, sub_closure)
 
+def _rename_defined_in(trees, suf):
+    """Give the bindings / node ids / closures *defined inside* the given subtrees a fresh suffix (uses of outer ones are kept)."""
+    binds, ids, defs = set(), set(), set()
+    def collect(n):
+        if isinstance(n, list):
+            for x in n:
+                collect(x)
+        elif isinstance(n, dict):
+            if n.get('k') == 'Bind' and isinstance(n.get('bind'), str):
+                binds.add(n['bind'])
+            if isinstance(n.get('id'), str):
+                ids.add(n['id'])
+            if n.get('k') == 'Closure' and isinstance(n.get('def'), str):
+                defs.add(n['def'])
+            for key, v in n.items():
+                if key != 'sp' and isinstance(v, (dict, list)):
+                    collect(v)
+    def apply(n):
+        if isinstance(n, list):
+            for x in n:
+                apply(x)
+        elif isinstance(n, dict):
+            if n.get('bind') in binds:
+                n['bind'] = n['bind'] + suf
+            for key in ('id', 'target', 'ret_target'):
+                if n.get(key) in ids:
+                    n[key] = n[key] + suf
+            if n.get('k') == 'Closure' and n.get('def') in defs:
+                n['def'] = n['def'] + suf
+            for key, v in n.items():
+                if key != 'sp' and isinstance(v, (dict, list)):
+                    apply(v)
+    collect(trees)
+    apply(trees)
+
 _inline_counter = [0]
 
 def inlined(facts, rec, policy, max_depth=4):
@@ -528,8 +563,49 @@ def _expand(facts, call, cal, crec, policy, stack, depth, awaited):
     for p, a in zip(params, args):
         stmts.append({'k': 'Let', 'pat': p, 'init': a, 'sp': call.get('sp'), 'inlined_param': True})
     inner = _inline_node(facts, body, policy, stack + (cal,), depth - 1) if depth > 0 else body
+    inner = _unroll_literal_for(inner, {p['bind']: a for p, a in zip(params, args) if p.get('k') == 'Bind' and 'sub' not in p})
     return {'k': 'Block', 'id': blk_id, 'sp': call.get('sp'), 'ty': inner.get('ty'), 'stmts': stmts, 'expr': inner,
             'label': blk_id, 'inlined_from': cal, 'rules': None}
+
+def _peel_iter(e):
+    while True:
+        if e.get('k') == 'AddrOf':
+            e = e['e']
+        elif e.get('k') == 'Unary' and e.get('op') == 'Deref':
+            e = e['e']
+        elif e.get('k') == 'MethodCall' and e.get('name') in ('iter', 'into_iter', 'copied', 'cloned') and not e['args']:
+            e = e['recv']
+        else:
+            return e
+
+def _unroll_literal_for(n, param_args):
+    """Inside an expanded helper: `for x in ids { body }` where `ids` is a parameter bound to an array literal at this call
+    site (`release(&[a, b])`) is replaced by one copy of the body per element, in order.  Bodies containing break/continue
+    of that loop are left alone."""
+    if isinstance(n, list):
+        return [_unroll_literal_for(x, param_args) for x in n]
+    if not isinstance(n, dict):
+        return n
+    for key, v in list(n.items()):
+        if key != 'sp' and isinstance(v, (dict, list)):
+            n[key] = _unroll_literal_for(v, param_args)
+    if n.get('k') == 'For':
+        it = _peel_iter(n['iter'])
+        if it.get('k') == 'Path' and it.get('res') == 'local' and it.get('bind') in param_args:
+            arr = _peel_iter(param_args[it['bind']])
+            if arr.get('k') == 'Array' and not any(x.get('k') in ('Break', 'Continue') and x.get('target') in (None, n.get('id')) for x, _c in walk(n['body'])):
+                stmts = []
+                for i, el in enumerate(arr['elems']):
+                    _inline_counter[0] += 1
+                    suf = '@u%d' % _inline_counter[0]
+                    body = _copy.deepcopy(n['body'])
+                    pat = _copy.deepcopy(n['pat'])
+                    _rename_defined_in([pat, body], suf)
+                    blk = {'k': 'Block', 'id': 'unr' + suf, 'sp': n.get('sp'), 'ty': '()', 'rules': None, 'expr': body,
+                           'stmts': [{'k': 'Let', 'pat': pat, 'init': _copy.deepcopy(el), 'sp': n.get('sp'), 'inlined_param': True}]}
+                    stmts.append({'k': 'Semi', 'e': blk})
+                return {'k': 'Block', 'id': (n.get('id') or '') + 'u', 'sp': n.get('sp'), 'ty': '()', 'rules': None, 'stmts': stmts, 'expr': None, 'unrolled_for': True}
+    return n
 
 def _inline_node(facts, n, policy, stack, depth):
     if isinstance(n, list):
